@@ -158,6 +158,122 @@ def monitor(am, engine, cx, events, snaps):
     return out[:1]
 
 
+# ---------------------------------------------------------------------------------------------------------------------
+# stop() WINDOW (implementation monitor, asyncio engine on the virtual-time loop): stop() of an interpreter that owns a child actor
+# whose own stop() takes time (its invoked service cleans up on cancellation) is still in progress when a delayed transition of
+# the parent (or of the child) falls due.  The property: a timer never fires after stop() - from the moment stop() was CALLED no
+# delayed transition is taken, no user action runs, the configuration does not change.  (Fifth-round seeded change C08-D enqueued
+# the expiry directly instead of going through send(), which is where a stopped interpreter drops events.)
+def stop_window_cases(rng, n):
+    cases = []
+    for i in range(n):
+        d = rng.choice([120, 200, 310, 450])                 # the parent's delay
+        t_stop = rng.choice([x for x in (31, 63, 101, 183, 291) if x < d])
+        w = rng.choice([50, 150, 400, 700])                  # how long the child's service needs to wind down
+        cases.append(dict(delay=d, t_stop=t_stop, wind_down=w, child_delay=rng.choice([None, d + 20, 90]),
+                          nested=rng.random() < 0.4, second=rng.choice([None, d + 60])))
+    return cases
+
+
+def run_stop_window(case):
+    import asyncio
+    from harness import impl
+    from xstate_statemachine import create_machine, Interpreter, MachineLogic
+    log = []
+    d, w = case["delay"], case["wind_down"]
+    loop = impl.VLoop()
+
+    def mark(tag):
+        def act(interp, ctx, ev, ad):
+            log.append((round(loop.time() * 1000), tag, sorted(interp.current_state_ids)))
+        return act
+
+    async def slow_service(interp, ctx, ev):
+        try:
+            await asyncio.sleep(3600)
+        except asyncio.CancelledError:
+            await asyncio.sleep(w / 1000.0)                  # cleanup on cancellation: the child's stop() awaits it
+            raise
+
+    child_cfg = {"id": "kid", "initial": "run", "states": {
+        "run": {"invoke": {"src": "slow"}, "entry": ["kEntry"],
+                **({"after": {str(case["child_delay"]): {"target": "late", "actions": ["kFired"]}}} if case["child_delay"] else {})},
+        "late": {"entry": ["kLate"]}}}
+    child = create_machine(child_cfg, logic=MachineLogic(actions={"kEntry": mark("kEntry"), "kFired": mark("kFired"), "kLate": mark("kLate")},
+                                                         services={"slow": slow_service}))
+    a = {"invoke": {"src": "kid", "id": "k"}, "exit": ["aExit"],
+         "after": {str(d): {"target": "b", "actions": ["fired"]}}}
+    if case["second"]:
+        a["after"][str(case["second"])] = {"target": "c", "actions": ["fired2"]}
+    if case["nested"]:
+        states = {"w": {"initial": "a", "states": {"a": a}, "after": {str(d + 35): {"target": "c", "actions": ["firedW"]}}}, "b": {"entry": ["bEntry"]}, "c": {"entry": ["cEntry"]}}
+        cfg = {"id": "m", "initial": "w", "states": states}
+        a["after"][str(d)]["target"] = "#m.b"
+        if case["second"]:
+            a["after"][str(case["second"])]["target"] = "#m.c"
+    else:
+        cfg = {"id": "m", "initial": "a", "states": {"a": a, "b": {"entry": ["bEntry"]}, "c": {"entry": ["cEntry"]}}}
+    names = ["aExit", "fired", "fired2", "firedW", "bEntry", "cEntry"]
+    parent = create_machine(cfg, logic=MachineLogic(actions={k: mark(k) for k in names}, services={"kid": child}))
+    res = dict(case=case)
+
+    async def main():
+        it = Interpreter(parent)
+        await it.start()
+        await asyncio.sleep(case["t_stop"] / 1000.0)
+        res["cfg_at_stop"] = sorted(it.current_state_ids)
+        res["t_call"] = round(loop.time() * 1000)
+        res["log_at_stop"] = len(log)
+        await it.stop()
+        res["t_returned"] = round(loop.time() * 1000)
+        await asyncio.sleep(2.0)
+        res["cfg_end"] = sorted(it.current_state_ids)
+        res["status"] = it.status
+        res["kids"] = [c.status for c in it._actors.values()]
+    try:
+        loop.run_until_complete(asyncio.wait_for(main(), 30))
+    except Exception as exc:                                   # harness trouble is not a verdict
+        res["harness_exc"] = repr(exc)
+    finally:
+        try:
+            loop.close()
+        except Exception:
+            pass
+    res["log"] = [list(x) for x in log]
+    return res
+
+
+def stop_window_monitor(res):
+    if "harness_exc" in res or "t_call" not in res:
+        return []
+    # (a record stamped with the very instant stop() was called belongs to an expiry that fell due AT that instant: either order is allowed)
+    late = [x for x in res["log"][res["log_at_stop"]:] if x[0] > res["t_call"]]
+    if late:
+        return [("stop() was called at t=%d ms (it returned at t=%d ms, after its child actor had wound down) and afterwards user code ran: %s - "
+                 "a delayed transition must not fire once stop() was called" % (res["t_call"], res["t_returned"], late[:3]), None)]
+    if res["cfg_end"] != res["cfg_at_stop"] and len(res["log"]) == res["log_at_stop"]:
+        return [("the configuration changed after stop() was called: %s -> %s" % (res["cfg_at_stop"], res["cfg_end"]), None)]
+    if res["status"] != "stopped":
+        return [("status after stop() is %r" % res["status"], None)]
+    return []
+
+
+def stop_window_component(cases):
+    from concurrent.futures import ProcessPoolExecutor
+    with ProcessPoolExecutor(max_workers=12) as ex:
+        results = list(ex.map(run_stop_window, cases, chunksize=4))
+    fails, stats = [], dict(cases=len(cases), judged=0, deadline_inside_window=0)
+    for case, res in zip(cases, results):
+        if "harness_exc" in res or "t_call" not in res:
+            continue
+        stats["judged"] += 1
+        if res["t_call"] < case["delay"] <= res["t_returned"]:
+            stats["deadline_inside_window"] += 1
+        for what, sig in stop_window_monitor(res):
+            fails.append(dict(case=dict(stop_window=True, **case), what=what, signature=sig))
+    return fails, stats
+
+
 def stale_signature(am):
     return dict(kind="stale-expiry", cause="after-event-matched-by-type-only")
 
@@ -175,6 +291,10 @@ def run(rep, ctx):
         dis_all += dis
         fail_all += fails
 
+    wfails, wstats = stop_window_component(stop_window_cases(rng, 240 if big else 60))
+    rep.coverage.setdefault("components", {})["monitor: a deadline inside the window of a slow stop() (implementation only, asyncio engine, virtual time)"] = wstats
+    fail_all += wfails
+
     def search(extra):
         _, f2, _ = common.run_macro_property(rep, ctx, "c08_search", family(random.Random(ctx["seed"] + 81), 300), monitor, "search: 300 more")
         return f2
@@ -184,4 +304,11 @@ def run(rep, ctx):
 
 
 def replay(payload):
+    case = payload.get("case") or {}
+    if case.get("stop_window"):
+        res = run_stop_window({k: v for k, v in case.items() if k != "stop_window"})
+        fails = stop_window_monitor(res)
+        for what, _ in fails:
+            print("C08 replay:", what)
+        return 1 if fails else 0
     return common.replay_macro(payload, monitor)
